@@ -38,9 +38,102 @@ def check(run):
         run.functions += 1
     _siblings(run, sm, forms)
     _stacked(run, prog)
+    _svd(run, prog)
     from ..cachekey import check_caches
     check_caches(run, [m for k, m in prog.modules.items() if k.startswith('cherab.tools.inversions')], 'C11-K', prog=prog)
     _inputs_kept(run, prog)
+
+
+def _svd(run, prog):
+    """R6: invert_svd returns pinv(W) . b -- the minimum-norm least-squares solution (alpha = 0 member of the regularised family).
+    Decided by reading the returned expression with matrix-product semantics: np.matrix operands multiply as matrices, reshape /
+    flatten / asarray do not change the entries."""
+    run.describe('C11-R6', 'invert_svd returns the product of the Moore-Penrose pseudo-inverse of the given matrix with the given vector')
+    rel = 'cherab/tools/inversions/svd.py'
+    mi = prog.load(rel, required=False)
+    if mi is None:
+        raise AnalysisError('anchored source file vanished: %s' % rel)
+    run.use_file(rel)
+    fn = mi.functions.get('invert_svd')
+    if fn is None:
+        raise AnalysisError('anchored function vanished: invert_svd')
+    from ..inline import flatten, module_lookup
+    try:
+        fn = flatten(fn, module_lookup(mi))
+    except Exception:
+        pass
+    W, B = [a.arg for a in fn.args.args[:2]]
+    K = mi.name + '|invert_svd|'
+    env = {W: ('W', False), B: ('b', False)}       # name -> (term, is np.matrix)
+
+    class Unknown(Exception):
+        pass
+
+    def ev(e):
+        if isinstance(e, ast.Name):
+            if e.id in env:
+                return env[e.id]
+            raise Unknown(e.id)
+        if isinstance(e, ast.Attribute) and e.attr in ('T',):
+            t, m = ev(e.value)
+            return ('T(%s)' % t, m)
+        if isinstance(e, ast.Attribute) and e.attr in ('A', 'A1'):
+            t, m = ev(e.value)
+            return (t, False)
+        if isinstance(e, ast.Call):
+            f = dotted(e.func) or ''
+            last = e.func.attr if isinstance(e.func, ast.Attribute) else f.split('.')[-1]
+            if isinstance(e.func, ast.Attribute) and last in ('flatten', 'ravel', 'reshape', 'squeeze', 'copy', 'astype') and not f.startswith(('np.', 'numpy.')):
+                return ev(e.func.value)
+            if last in ('asarray', 'array', 'asanyarray', 'ravel', 'squeeze', 'atleast_1d', 'atleast_2d', 'ascontiguousarray') and e.args:
+                t, m = ev(e.args[0])
+                return (t, False)
+            if last in ('matrix', 'asmatrix', 'mat') and e.args:
+                t, m = ev(e.args[0])
+                return (t, True)
+            if last in ('pinv', 'pinv2', 'pinvh') and e.args:
+                if len(e.args) > 1 or e.keywords:
+                    raise Unknown('pinv with a cut-off')
+                t, m = ev(e.args[0])
+                return ('PINV(%s)' % t, m)
+            if last in ('dot', 'matmul') and len(e.args) == 2 and f.split('.')[0] in ('np', 'numpy'):
+                return ('MM(%s,%s)' % (ev(e.args[0])[0], ev(e.args[1])[0]), False)
+            if isinstance(e.func, ast.Attribute) and last == 'dot' and len(e.args) == 1:
+                a, b = ev(e.func.value), ev(e.args[0])
+                return ('MM(%s,%s)' % (a[0], b[0]), a[1] or b[1])
+            raise Unknown(norm(e)[:40])
+        if isinstance(e, ast.BinOp) and isinstance(e.op, ast.MatMult):
+            a, b = ev(e.left), ev(e.right)
+            return ('MM(%s,%s)' % (a[0], b[0]), a[1] or b[1])
+        if isinstance(e, ast.BinOp) and isinstance(e.op, ast.Mult):
+            a, b = ev(e.left), ev(e.right)
+            if a[1] or b[1]:
+                return ('MM(%s,%s)' % (a[0], b[0]), True)
+            return ('EW(%s,%s)' % (a[0], b[0]), False)
+        raise Unknown(norm(e)[:40])
+    run.subject('C11-R6')
+    got = None
+    try:
+        for st in fn.body:
+            if isinstance(st, ast.Assign) and len(st.targets) == 1 and isinstance(st.targets[0], ast.Name):
+                env[st.targets[0].id] = ev(st.value)
+            elif isinstance(st, ast.Return) and st.value is not None:
+                got = ev(st.value)[0]
+            elif isinstance(st, ast.Expr) and isinstance(st.value, ast.Constant):
+                continue
+            else:
+                raise Unknown(norm(st)[:40])
+    except Unknown as e:
+        run.undecided('C11-R6', 'invert_svd', 'not interpreted: %s' % e)
+        return
+    if got == 'MM(PINV(W),b)':
+        run.ok('C11-R6', 'invert_svd', 'pinv(W) . b')
+    elif got is None:
+        run.undecided('C11-R6', 'invert_svd', 'no returned value')
+    else:
+        run.fail('C11-R6', K + 'product', rel, fn.lineno,
+                 'invert_svd returns %s (MM: matrix product, EW: element-wise product, PINV: pseudo-inverse, T: transpose); documented: the '
+                 'pseudo-inverse of the sensitivity matrix applied to the measurement vector, pinv(W) . b' % got)
 
 
 def _inputs_kept(run, prog):
